@@ -1157,6 +1157,7 @@ func main() {
 	phase("timed-under-clock-delta", 2*time.Minute, func() { timedUnderDelta(env, rep) })
 	phase("callback-window", time.Minute, func() { callbackWindow(env, rep) })
 	phase("clear-races", 2*time.Minute, func() { clearRaces(env, rep) })
+	phase("panicking-callbacks", time.Minute, func() { panickingCallbacks(env, rep) })
 	phase("timed-arrival", time.Minute, func() { timedArrival(env, rep) })
 	phase("timed-out-then-put", time.Minute, func() { timedOutThenPut(env, rep) })
 	phase("known-findings", 30*time.Second, func() { knownFindings(rep) })
@@ -1917,6 +1918,88 @@ func clearRaces(env *vh.Env, rep *vh.Report) {
 				map[string]interface{}{"type": name, "capacity": capacity, "clears": len(clears), "delivered": len(delivered),
 					"how": "2 goroutines put 300 elements each (Put / PutForce on the two lists), one loops Clear(), one loops Get(); afterwards quiescence checks"})
 			return
+		}
+	}
+}
+
+// ---------------------------------------------------------------- a panicking callback must not leave the lock behind
+
+// panickingCallbacks: the failure / overflow callbacks panic (installed through the public API: the
+// fields of RequestQueue, SetCallbacks1/2 of RequestDoubleQueue); the producer recovers, as user code
+// may.  Afterwards the queue must still be usable — Size, GetNoWait, Put, Clear return under a watchdog —
+// and consistent: within its capacity, and what it hands out are elements that were put, in order.
+func panickingCallbacks(env *vh.Env, rep *vh.Report) {
+	panicking := func(interface{}) { panic("user callback panics") }
+	type variant struct {
+		name string
+		dbl  bool
+		mk   func() (put func(interface{}) bool, force func(interface{}) bool, getNW func() interface{}, size func() int, clear func(), ok bool)
+	}
+	mkQ := func() (func(interface{}) bool, func(interface{}) bool, func() interface{}, func() int, func(), bool) {
+		q := queue.NewRequestQueue(2)
+		q.Failed, q.Overflowed = panicking, panicking
+		return q.Put, q.PutForce, q.GetNoWait, q.Size, q.Clear, true
+	}
+	mkD := func(second bool) func() (func(interface{}) bool, func(interface{}) bool, func() interface{}, func() int, func(), bool) {
+		return func() (func(interface{}) bool, func(interface{}) bool, func() interface{}, func() int, func(), bool) {
+			d := queue.NewRequestDoubleQueue(2, 2)
+			ok := true
+			for _, sn := range []string{"SetCallbacks1", "SetCallbacks2"} {
+				sm := reflect.ValueOf(d).MethodByName(sn)
+				if !sm.IsValid() || sm.Type().NumIn() != 2 {
+					ok = setDoubleCB(d, panicking, panicking) // a tree without the setters: reflection
+					break
+				}
+				sm.Call([]reflect.Value{reflect.ValueOf(panicking), reflect.ValueOf(panicking)})
+			}
+			if second {
+				return d.Put2, d.PutForce2, d.GetNoWait, d.Size, d.Clear, ok
+			}
+			return d.Put1, d.PutForce1, d.GetNoWait, d.Size, d.Clear, ok
+		}
+	}
+	for vi, v := range []variant{{"RequestQueue", false, mkQ}, {"RequestDoubleQueue", true, mkD(false)}, {"RequestDoubleQueue", true, mkD(true)}} {
+		for _, forced := range []bool{false, true} {
+			put, force, getNW, size, clear, ok := v.mk()
+			if !ok {
+				continue
+			}
+			method := map[bool]string{false: "Put", true: "PutForce"}[forced] + []string{"", "1", "2"}[vi]
+			at("panicking callbacks: %s full at capacity 2, %s(3) with a panicking callback, recovered; then Size/GetNoWait/Put/Clear", v.name, method)
+			put(1)
+			put(2)
+			out := vh.GuardTimeout(3*time.Second, func() {
+				if forced {
+					force(3)
+				} else {
+					put(3)
+				}
+			})
+			rep.Case(fmt.Sprintf("panicking-callback %s %s", v.name, method), true)
+			rep.Count("panicking-callbacks:runs")
+			replay := map[string]interface{}{"type": v.name, "method": method,
+				"how": "capacity 2, callbacks that panic (RequestQueue.Failed/Overflowed, RequestDoubleQueue.SetCallbacks1/2); put 1, 2; " + method + "(3) under recover; then Size(), GetNoWait(), Put(9), Clear() under a 2 s watchdog"}
+			if out.Timeout {
+				rep.Fail("property", v.name+"."+method+":timeout", "did not return", replay)
+				continue
+			}
+			sz, got := -1, -1
+			after := vh.GuardTimeout(2*time.Second, func() {
+				sz = size()
+				got = unelem(getNW())
+				vh.Guard(func() { put(9) })
+				clear()
+			})
+			replay["size_after"], replay["next_element"] = sz, got
+			switch {
+			case after.Timeout:
+				rep.Fail("property", v.name+"."+method+":lock-leaked-after-panic",
+					fmt.Sprintf("%s.%s: the callback panicked, the caller recovered, and the queue's lock was never released: Size()/GetNoWait()/Put()/Clear() block forever", v.name, method), replay)
+			case sz > 2 || sz < 1:
+				rep.Fail("property", v.name+"."+method+":inconsistent-after-panic", fmt.Sprintf("%s.%s with a panicking callback left Size() = %d at capacity 2", v.name, method, sz), replay)
+			case !forced && got != 1 || forced && got != 2:
+				rep.Fail("property", v.name+"."+method+":inconsistent-after-panic", fmt.Sprintf("%s.%s with a panicking callback: the next element handed out is %d", v.name, method, got), replay)
+			}
 		}
 	}
 }
